@@ -1,5 +1,5 @@
 /- L0 facts about the accessors, Display and Default of Minimum (split from Lemmas/Minimum.lean so that a change to one method only invalidates the facts about that method) -/
-import TaRs.Lemmas.Minimum
+import TaRs.Lemmas.Core.Minimum
 set_option linter.unusedSectionVars false
 namespace TaRs.Gen.Minimum
 open TaRs TaRs.Rs
